@@ -30,6 +30,8 @@ type c09Case struct {
 	// then the profile file is replaced by the one under test and the run uses strategy Strat (0 = default flags)
 	Settled bool `json:"settled,omitempty"`
 	Strat   int  `json:"strat,omitempty"`
+	// pipe: ReadFault > 0 = reading the profile file breaks off with an I/O error after ReadFault-1 bytes
+	ReadFault int `json:"readFault,omitempty"`
 }
 
 var c09Alphabet = []string{"CN", "O", "C", "1.2.3.4"}
@@ -107,6 +109,18 @@ func c09Enumerate(tier string, yield func(any)) {
 		{Attrs: []string{"L", "SERIALNUMBER"}, Optional: []bool{false, true}},
 	}
 	subjs := [][]string{{"CN"}, {"O", "CN"}, {"CN", "O"}, {"C", "O", "CN"}, {"L", "CN"}, {"C", "CN"}, {"O"}, {"L"}, {"L", "SERIALNUMBER"}}
+	// the profile file cannot be read to its end: whatever arrived, the forbidden subject is not certified
+	for _, rf := range []struct {
+		p c09Case
+		s []string
+	}{{profs[2], []string{"O", "CN"}}, {profs[0], []string{"O"}}, {profs[6], []string{"CN"}}} {
+		for off := 0; off <= 160; off++ {
+			c := rf.p
+			c.Kind, c.HasList, c.Subject, c.Pos, c.ReadFault = "pipe", true, rf.s, 0, off+1
+			cc := c
+			yield(&cc)
+		}
+	}
 	for _, p := range profs {
 		for _, s := range subjs {
 			for pos := 0; pos < 3; pos++ {
@@ -279,9 +293,30 @@ func c09Pipe(x *engine.Ctx, c *c09Case) {
 	} else {
 		d.Render(w)
 	}
+	if c.ReadFault > 0 {
+		if c.ReadFault-1 > len(w.Files[prof.Path].Data) {
+			x.Outcome("pipe: read fault beyond the end of the profile file")
+			return
+		}
+		w.ReadFaults = map[string]int{prof.Path: c.ReadFault - 1}
+	}
 	before := w.Clone()
 	res := drive.Run(w, strat, nil)
 	want, _, reason := c09Model(c, c.Subject)
+	if c.ReadFault > 0 {
+		x.Transition(1)
+		x.Nontrivial(fmt.Sprintf("pipe-readfault %v %v %d", c.Attrs, c.Subject, c.ReadFault))
+		if res.Panic != "" {
+			x.Violation("C09/panic/"+res.PanicSite, res.Panic)
+			return
+		}
+		target := ArtifactPath(d.Certs[c.Pos].Path)
+		if _, written := w.Files[target]; !want && (res.OK() || written) {
+			x.Violation("C09/profile-read-error/forbidden-subject-certified", fmt.Sprintf("reading %s broke off after %d of %d bytes; subject %q violates the profile (%s), yet the run %s and %s exists=%v", prof.Path, c.ReadFault-1, len(w.Files[prof.Path].Data), c09SubjectString(c.Subject), reason, res.Summary(), target, written))
+		}
+		x.Outcome("pipe: profile read fault")
+		return
+	}
 	x.Transition(1)
 	x.Nontrivial(fmt.Sprintf("pipe %v %v %v %v %d %v %d", c.Attrs, c.Optional, c.AllowOther, c.Subject, c.Pos, c.Settled, c.Strat))
 	if res.Panic != "" {
@@ -312,7 +347,7 @@ func init() {
 	register(&engine.Check{
 		ID:          "C09",
 		Level:       "model_checking",
-		Rule:        "every profile = (attribute list of length 0..4 over {CN,O,C,1.2.3.4} x optional flag) x allowOther, plus the absent list (9363 profiles) x every subject of length 1..5 over {CN,O,C,1.2.3.4,L} (3905), and the same product over {1.2.3.4, 2.5.4.97, CN} with subjects over those plus L (3108 profiles x 1364 subjects): config.Validate on the real parsed RDN sequence vs. the reference predicate transcribed from the statement, one profile object shared by all its subjects as in a run and compared with its definition after every verdict; plus 7 profiles x 9 subjects x 3 positions of the constrained entity in a root->mid->leaf chain through the whole file pipeline (rejected => planning error, empty write log), on a fresh directory and on a directory first generated under a profile of the same name without subject rules and then run with default / -m only / all four reasons / -a. Pairs are distinct by construction; states = profiles, transitions = Validate calls / runs",
+		Rule:        "every profile = (attribute list of length 0..4 over {CN,O,C,1.2.3.4} x optional flag) x allowOther, plus the absent list (9363 profiles) x every subject of length 1..5 over {CN,O,C,1.2.3.4,L} (3905), and the same product over {1.2.3.4, 2.5.4.97, CN} with subjects over those plus L (3108 profiles x 1364 subjects): config.Validate on the real parsed RDN sequence vs. the reference predicate transcribed from the statement, one profile object shared by all its subjects as in a run and compared with its definition after every verdict; plus 7 profiles x 9 subjects x 3 positions of the constrained entity in a root->mid->leaf chain through the whole file pipeline (rejected => planning error, empty write log), on a fresh directory and on a directory first generated under a profile of the same name without subject rules and then run with default / -m only / all four reasons / -a; and three forbidden subjects with the read of the profile file breaking off after every possible number of bytes (the subject must not be certified, whatever arrived). Pairs are distinct by construction; states = profiles, transitions = Validate calls / runs",
 		Bound:       map[string]string{"profile length": "<=4", "subject length": "<=5", "alphabet": "3 short names + 1 custom OID + 1 foreign attribute"},
 		Assumptions: []string{"profile attributes that the schema allows but no table resolves (PC, DC, T, UID, MAIL) are outside the statement"},
 		Budget:      budgets(quickBudget, thoroughBudget),
